@@ -113,6 +113,45 @@ Proof.
 Qed.
 Print Assumptions C12_lock_free_at_quiescence.
 
+(* said the other way round: whenever nothing more can happen, every request has returned and the
+   lock is free -- no run can end with a request stuck *)
+Theorem C12_maximal_runs_finish :
+  forall (g : prog) (entries : list nat),
+    wf_prog g entries = true ->
+    forall (es : list nat), (forall e, In e es -> In e entries) ->
+    forall (sch : list (nat * nat)),
+      let s := run (cstep g) sch (init_sys es) in
+      (forall a, cstep g s a = None) -> all_finished s = true /\ s_lock s = free_lock.
+Proof.
+  intros g entries Hwf es Hes sch s Hq.
+  pose proof (inv_run g entries _ Hwf es sch Hes) as HI. fold s in HI.
+  assert (Hf : all_finished s = true).
+  { destruct (all_finished s) eqn:E; [reflexivity|].
+    destruct (no_deadlock g entries _ Hwf s HI E) as (a & s' & Hs). rewrite Hq in Hs. discriminate. }
+  split; [exact Hf|]. exact (quiescent_free g _ s HI Hf).
+Qed.
+Print Assumptions C12_maximal_runs_finish.
+
+(* the lock is never wedged: whenever it is held or a writer has announced itself, one of the threads
+   involved (a holder, or the announced writer once the readers have drained) can take its next
+   step, and that step is not a wait for anything foreign: [wf_prog] rejects the acquisition of
+   another mutex (OBlock) while the lock is held.  So the progress of the lock does not depend on
+   any other lock of the service. *)
+Theorem C12_lock_never_wedged :
+  forall (g : prog) (entries : list nat),
+    wf_prog g entries = true ->
+    forall (es : list nat), (forall e, In e es -> In e entries) ->
+    forall (sch : list (nat * nat)),
+      let s := run (cstep g) sch (init_sys es) in
+      s_lock s <> free_lock ->
+      exists i t s', nth_error (s_threads s) i = Some t /\ involved t = true /\
+                     foreign_wait g t = false /\ cstep g s (i, 0%nat) = Some s'.
+Proof.
+  intros g entries Hwf es Hes sch s Hnf.
+  exact (never_wedged g entries _ Hwf s (inv_run g entries _ Hwf es sch Hes) Hnf).
+Qed.
+Print Assumptions C12_lock_never_wedged.
+
 (* every request returns: for programs without cycles (checked ranking), however the threads are
    scheduled only a bounded number of steps can be taken, and from every reachable state the
    requests in flight can all be completed -- together with C12_no_deadlock: every maximal run ends
@@ -163,13 +202,31 @@ Theorem C12_blockrelay_never_wedged :
       (forall t, In t (s_threads s) -> t_pc t = PDone -> t_r t = 0%nat /\ t_w t = false).
 Proof.
   intros mu Hmu es Hes sch g s.
-  pose proof (wf_graph_mutex _ _ mu C12_blockrelay_wf Hmu) as Hwf. fold g in Hwf.
+  pose proof (wf_graph_mutex _ _ mu C12_blockrelay_wf Hmu) as Hwf.
   split; [|split].
-  - exact (C12_no_deadlock g _ Hwf es Hes sch).
-  - exact (C12_lock_free_at_quiescence g _ Hwf es Hes sch).
-  - exact (proj1 (proj2 (proj2 (C12_lock_invariant g _ Hwf es Hes sch)))).
+  - exact (C12_no_deadlock _ _ Hwf es Hes sch).
+  - exact (C12_lock_free_at_quiescence _ _ Hwf es Hes sch).
+  - exact (proj1 (proj2 (proj2 (C12_lock_invariant _ _ Hwf es Hes sch)))).
 Qed.
 Print Assumptions C12_blockrelay_never_wedged.
+
+(* for the leaf mutexes of the service (those inside whose critical sections no other mutex is
+   acquired; executionConfigMu is one, see C12_hand_programs_match_source) the lock is never wedged,
+   whatever the other mutexes do *)
+Theorem C12_blockrelay_leaf_never_wedged :
+  forall (mu : mutex), In mu (leaf_mutexes g_blockrelay_standard entries_blockrelay_standard) ->
+    forall (es : list nat), (forall e, In e es -> In e entries_blockrelay_standard) ->
+    forall (sch : list (nat * nat)),
+      let g := project_leaf mu g_blockrelay_standard in
+      let s := run (cstep g) sch (init_sys es) in
+      s_lock s <> free_lock ->
+      exists i t s', nth_error (s_threads s) i = Some t /\ involved t = true /\
+                     foreign_wait g t = false /\ cstep g s (i, 0%nat) = Some s'.
+Proof.
+  intros mu Hmu es Hes sch g s Hnf.
+  exact (C12_lock_never_wedged _ _ (leaf_mutex_wf _ _ mu Hmu) es Hes sch Hnf).
+Qed.
+Print Assumptions C12_blockrelay_leaf_never_wedged.
 
 (* the hand transcription of the four request kinds (what the correspondence check runs against
    the implementation) is well-formed and acyclic: all of the above, and every request returns *)
@@ -187,7 +244,7 @@ Proof.
 Qed.
 Print Assumptions C12_hand_programs_return.
 
-(* the hand transcription is not out of date: some mutex of the extracted service has an entry
+(* the hand transcription is not out of date: some LEAF mutex of the extracted service has an entry
    with exactly the lock traces of the refresh (return early | RLock RUnlock Lock Unlock), and every
    lock trace of every hand program is a lock trace of some entry on that mutex *)
 Theorem C12_hand_programs_match_source :
@@ -283,3 +340,9 @@ Example C12_ex_projection_nontrivial :
                      existsb (fun nd => match p_op nd with ORLock => true | _ => false end) (project mu g_blockrelay_standard))
           (mutexes_of g_blockrelay_standard) = true.
 Proof. vm_compute. reflexivity. Qed.
+
+(* the service has leaf mutexes (on the present tree: all but builderBidMu, which is held while the
+   bid cache and the configuration are read) *)
+Example C12_ex_leaf_mutexes :
+  leaf_mutexes g_blockrelay_standard entries_blockrelay_standard <> [].
+Proof. vm_compute. discriminate. Qed.
